@@ -463,6 +463,31 @@ func (c *PathCtx) callSSA(caller *frame, pos token.Pos, fn *ssa.Function, args [
 	if depth > 400 {
 		panic(inconclusive("call depth > 400 at %s", fn))
 	}
+	if c.lenient > 0 && fn.Parent() == nil && fn.Signature.Recv() == nil && (fn.Name() == "init" || strings.HasPrefix(fn.Name(), "init#")) {
+		// package initialisers run leniently: an initialiser that needs code outside
+		// the encoder (protobuf registration, ...) is abandoned at the failing point
+		return c.runInitLenient(fr)
+	}
+	for fr.block != nil {
+		runFrame(fr)
+	}
+	return fr.result
+}
+
+func (c *PathCtx) runInitLenient(fr *frame) (res Value) {
+	defer func() {
+		if r := recover(); r != nil {
+			if _, ok := r.(targetPanic); ok {
+				res = nil
+				return
+			}
+			if pa, ok := r.(pathAbort); ok && pa.kind == "inconclusive" {
+				res = nil
+				return
+			}
+			panic(r)
+		}
+	}()
 	for fr.block != nil {
 		runFrame(fr)
 	}
